@@ -3,6 +3,7 @@
 import json, glob, os, re, collections
 
 rows = []
+thorough = {}
 for mp in sorted(glob.glob('/verif/seeded/*/meta.json')):
     m = json.load(open(mp))
     n = m.get('needs_short') or m.get('needs_to_manifest', '')
@@ -12,6 +13,8 @@ for mp in sorted(glob.glob('/verif/seeded/*/meta.json')):
         except OSError:
             pass
     rows.append((m['id'], m['breaks_property'], n, m.get('caught_by_quick', []), m.get('duplicate_of')))
+    if m.get('caught_by_thorough'):
+        thorough[m['id']] = m['caught_by_thorough']
 
 own = sum(1 for r in rows if r[1] in r[3])
 anyc = sum(1 for r in rows if r[3])
@@ -38,7 +41,8 @@ for i, p, n, c, dup in rows:
     n = n.replace('|', '/').replace('\n', ' ')
     if len(n) > 260:
         n = n[:257] + '...'
-    out.append("| %s | %s | %s | %s |" % (i, p, n, ' '.join(c) if c else '**none**'))
+    th = thorough.get(i)
+    out.append("| %s | %s | %s | %s |" % (i, p, n, (' '.join(c) if c else '**none**') + (' (thorough tier: %s)' % ' '.join(th) if th else '')))
 out.append("")
 out.append("Checks strengthened because a seeded change (or a survivor of the systematic mutation campaign, `tools_mutcampaign.py`:")
 out.append("first-order operator / constant / statement-deletion mutants of the library, survivors triaged by hand) was missed at first:")
